@@ -252,6 +252,10 @@ func cmdCheck(args []string) {
 	}
 	exit := 0
 	var vlines []string
+	if len(pend) > 12 {
+		fmt.Printf("%d further violation classes not written out (first 12 are)\n", len(pend)-12)
+		pend = pend[:12]
+	}
 	for i, pv := range pend {
 		var sc Scenario
 		json.Unmarshal(pv.fv.Scenario, &sc)
